@@ -295,11 +295,11 @@ def render_case(case):
     return "\n".join(lines) + "\n"
 
 
-def case_line(case):
+def case_line(case, source=None):
     classes = case["classes"]
     order, ids = closure(classes, case["ty"])
     cls_ids = {c["name"]: i for i, c in enumerate(classes)}
-    toks = ["chk", common.hexs(render_case(case)), case["kind"], "0", "T", str(len(order))]
+    toks = ["chk", common.hexs(source if source is not None else render_case(case)), case["kind"], "0", "T", str(len(order))]
     for t in order:
         d = ty_def(classes, t)
         if d[0] == "prim":
@@ -808,6 +808,134 @@ def shrink_case(case, fails):
     return case
 
 
+# ---------------------------------------------------------------------------------------------
+# expression contexts: the verdict must reach the user from every position of the match / let / if-let
+# (the glue around pattern_matching: check_match / check_declaration_statement / check_if_else are
+# reached in checking mode, in synthesis mode, with and without hints).  `lit`: arm bodies are
+# literals; `call`: arm bodies are calls (so that a generic call's argument goes through synthesis).
+
+CONTEXTS = [
+    ("body", "{E}", "lit"),
+    ("block-final", "{{ let r = 0; {E} }}", "lit"),
+    ("let-initialiser", "{{ let r = {E}; r }}", "call"),
+    ("generic-function-arg", "Main.gid({E})", "lit"),
+    ("generic-function-arg/synthesised", "Main.gid({E})", "call"),
+    ("generic-function-arg/nested-in-call", "Main.gid(Main.id({E}))", "lit"),
+    ("generic-constructor-arg/synthesised", "Bx.init({E}).v", "call"),
+    ("generic-static-arg/synthesised", "Bx.of({E}).get()", "call"),
+    ("generic-method-arg/annotated-lambda", "Bx.of(0).map((y: int) -> Main.id({E})).get()", "lit"),
+    ("generic-method-arg/lambda-body", "Bx.of(0).map((y) -> {E}).get()", "lit"),
+    ("match-arm", "match x {{ _ -> {E} }}", "lit"),
+    ("if-branch", "if true {{ {E} }} else {{ 0 }}", "call"),
+    ("if-condition", "if ({E}) == 0 {{ 1 }} else {{ 2 }}", "lit"),
+    ("binary-left", "({E}) + 1", "lit"),
+    ("binary-right", "1 + ({E})", "call"),
+    ("field-initialiser", "IBx.init({E}).v", "lit"),
+    ("non-generic-arg", "Main.id({E})", "call"),
+    ("generic-arg-with-hint", "{{ let r: Bx<int> = Bx.of({E}); r.v }}", "call"),
+    ("generic-arg/nested-generic", "Main.gid(Bx.of({E})).v", "call"),
+]
+
+CTX_PRELUDE = [
+    "class Bx<T>(val v: T) {",
+    "  function <T> of(v: T): Bx<T> = Bx.init(v)",
+    "  method get(): T = this.v",
+    "  method <R> map(f: (T) -> R): Bx<R> = Bx.init(f(this.v))",
+    "}",
+    "class IBx(val v: int) {}",
+]
+
+
+def ctx_expr(case, variant):
+    nm = Namer()
+    pats = case["pats"]
+    val = (lambda i: f"Main.id({i})") if variant == "call" else (lambda i: str(i))
+    if case["kind"] == "match":
+        arms = ", ".join(f"{pat_src(p, nm)} -> {val(i)}" for i, p in enumerate(pats))
+        return f"match x {{ {arms} }}"
+    if case["kind"] == "let":
+        return f"{{ let {pat_src(pats[0], nm)} = x; {val(1)} }}"
+    return f"if let {pat_src(pats[0], nm)} = x {{ {val(1)} }} else {{ 2 }}"
+
+
+def render_ctx_case(case, only=None):
+    """one function per expression context, each on its own line -> (source, {line number: context name})"""
+    lines = [class_src(c) for c in case["classes"]] + CTX_PRELUDE
+    lines += ["class Main {", "  function id(a: int): int = a", "  function <T> gid(v: T): T = v"]
+    ty = ty_src(case["ty"])
+    where = {}
+    for k, (name, tpl, variant) in enumerate(CONTEXTS):
+        if only is not None and name != only:
+            continue
+        lines.append(f"  function c{k}(x: {ty}): int = " + tpl.format(E=ctx_expr(case, variant)))
+        where[len(lines)] = name
+    lines.append("}")
+    return "\n".join(lines) + "\n", where
+
+
+def split_by_line(ans, where):
+    """implementation answer of a whole module -> {context name: answer restricted to that line}, stray items"""
+    out = {name: [] for name in where.values()}
+    stray = []
+    if ans.startswith("E"):
+        for item in ans.split(" ")[1:]:
+            ln = int(item.split(":")[0])
+            (out[where[ln]] if ln in where else stray).append(item)
+    return {name: ("E " + " ".join(items) if items else "ok") for name, items in out.items()}, stray
+
+
+def run_context_cases(ctx, cases, stats):
+    """Every generated match / let / if-let embedded in every expression context: in each context the
+    real checker must report exactly the model's verdict (NonExhaustiveMatch with the same counterexample
+    exactly once, or nothing; irrefutable-if-let flag), and the brute-force oracle must agree."""
+    rendered = [render_ctx_case(c) for c in cases]
+    lines = [case_line(c, src) for c, (src, _) in zip(cases, rendered)]
+    impl, model = common.run_pair("C07", lines)
+    bad = 0
+    for i, c in enumerate(cases):
+        ia = impl[i] if i < len(impl) else "<missing>"
+        ma = model[i] if i < len(model) else "<missing>"
+        src, where = rendered[i]
+        if ia.startswith("panic") or not (ia == "ok" or ia.startswith("E")):
+            per, stray = {name: ia for name in where.values()}, []
+        else:
+            per, stray = split_by_line(ia, where)
+        if stray:
+            per = dict(per); per["<outside the context functions>"] = "E " + " ".join(stray)
+        for name, ans in per.items():
+            stats["contexts"][name] = stats["contexts"].get(name, 0) + 1
+            n_ne = sum(1 for it in ans.split(" ")[1:] if ":NonExhaustiveMatch:" in it) if ans.startswith("E") else 0
+            r = classify(ctx, c, ans, ma, {}) if name in [n for n, _, _ in CONTEXTS] else ("diagnostic outside the generated functions: " + ans[:120], True, None)
+            if r is None and n_ne > 1:
+                r = (f"{n_ne} NonExhaustiveMatch diagnostics for one match", True, None)
+            if r is None:
+                continue
+            bad += 1
+            if bad > 3:
+                continue
+            what, no_input, _ = r
+
+            def fails(cand, name=name, no_input=no_input):
+                s2, w2 = render_ctx_case(cand, only=name)
+                i2, m2 = common.run_pair("C07", [case_line(cand, s2)])
+                p2, st2 = split_by_line(i2[0], w2) if (i2 and (i2[0] == "ok" or i2[0].startswith("E"))) else ({name: i2[0] if i2 else "<missing>"}, [])
+                r2 = classify(ctx, cand, p2.get(name, "ok"), m2[0] if m2 else "<missing>", {})
+                return r2 is not None and r2[1] == no_input
+            small = shrink_case(c, fails) if name in [n for n, _, _ in CONTEXTS] else c
+            s2, w2 = render_ctx_case(small, only=name if name in [n for n, _, _ in CONTEXTS] else None)
+            l2 = case_line(small, s2)
+            i2, m2 = common.run_pair("C07", [l2])
+            p2, _ = split_by_line(i2[0], w2) if (i2[0] == "ok" or i2[0].startswith("E")) else ({name: i2[0]}, [])
+            r2 = classify(ctx, small, p2.get(name, "ok"), m2[0], {}) or r
+            payload = {"protocol": "patcheck/contexts", "context": name, "source": s2, "line": l2,
+                       "impl": i2[0], "model": m2[0], "impl_verdict_in_context": impl_verdict(p2.get(name, "ok")),
+                       "model_verdict": model_verdict(m2[0])}
+            if r2[1]:
+                payload["broken"] = "correspondence `patcheck/contexts`: the verdict of the exhaustiveness analysis does not reach the user unchanged from this expression context"
+            ctx.violation(f"in expression context `{name}`: " + r2[0], payload, no_input=r2[1])
+    return bad
+
+
 def run_cases(ctx, cases, label, stats):
     lines = [case_line(c) for c in cases]
     impl, model = common.run_pair("C07", lines)
@@ -916,7 +1044,7 @@ F1_CASE = {"classes": [{"name": "C0", "generic": 0, "kind": "struct", "fields": 
 
 
 def run(ctx):
-    stats = {"kinds": {}, "outcomes": {}, "answers": []}
+    stats = {"kinds": {}, "outcomes": {}, "answers": [], "contexts": {}}
 
     def search():
         cases = exhaustive_small(ctx, stats, 1500)
@@ -938,7 +1066,15 @@ def run(ctx):
     n_mal = ctx.scale(300, 6000)
     n_un = ctx.scale(100, 2000)
     n_obj = ctx.scale(300, 6000)
+    n_ctx = ctx.scale(120, 2500)
     batch = 500
+    # expression contexts first: cheap, deterministic family x generated cases
+    done = 0
+    while done < n_ctx and not any(not v[1] for v in ctx.violations) and len(ctx.violations) < 6:
+        k = min(60, n_ctx - done)
+        cs = [gen_object_case(rng.fork()) if j % 3 == 0 else dict(gen_case(rng.fork(), False), home=None) for j in range(k)]
+        run_context_cases(ctx, cs, stats)
+        done += k; total += k * len(CONTEXTS)
     for n, mk, label in ((n_obj, lambda: gen_object_case(rng.fork()), "object-reorder"),
                          (n_valid, lambda: gen_case(rng.fork(), False), "generated valid"),
                          (n_small, None, "small-vocabulary search"),
@@ -968,7 +1104,7 @@ def run(ctx):
         "evaluations": total, "distinct_nontrivial": nontrivial,
         "rule": "one evaluation = one generated module (1-4 enum/struct/generic classes, recursive and nested) with one match (1-6 arms) / destructuring let / if-let over variant, tuple, object, wildcard, id, or-patterns of depth <= 4, type-checked by the real checker and by the model; non-trivial = distinct implementation answer carrying a NonExhaustiveMatch counterexample or an irrefutable-if-let diagnostic",
         "samples": samples, "traces_validated_against_impl": total,
-        "case_kinds": stats["kinds"], "impl_outcomes": stats["outcomes"],
+        "case_kinds": stats["kinds"], "expression_contexts": stats["contexts"], "impl_outcomes": stats["outcomes"],
         "oracle": {k: v for k, v in stats.items() if k in ("checked", "skipped-size", "skipped-malformed", "skipped-uninhabited", "illtyped", "uninhabited", "certified")},
         "pending": PENDING})
     ctx.assumptions += [
